@@ -331,7 +331,7 @@ Section Plan.
   Theorem prepare_accepts_iff :
     prepare_A ord g = Planned (plan_of ord g) <-> exists order, wf_plan order (plan_of ord g) = true.
   Proof.
-    rewrite prepare_outcome, <- (runsim_accepts_iff _ plan_struct plan_no_self_req).
+    rewrite prepare_outcome, <- (runsim_accepts_iff _ plan_struct).
     destruct (runsim_accepts (plan_of ord g)); split; intros H; try reflexivity; discriminate.
   Qed.
 
@@ -339,7 +339,7 @@ Section Plan.
     p = plan_of ord g /\ wf_plan (sim_order p) p = true.
   Proof.
     intros p H. rewrite prepare_outcome in H. destruct (runsim_accepts (plan_of ord g)) eqn:E; [|discriminate].
-    injection H as H. subst p. split; [reflexivity|]. exact (sim_sound _ E plan_struct plan_no_self_req).
+    injection H as H. subst p. split; [reflexivity|]. exact (sim_sound _ E plan_struct).
   Qed.
 
   Theorem prepare_total : prepare_A ord g = Planned (plan_of ord g) \/ prepare_A ord g = RejectedCycle.
